@@ -48,6 +48,8 @@ CONTEXTS = {
     "nested-filter": lambda x: ["test", ["q", "@", [["child", [["filter", x]]]]]],
     "deep": lambda x: ["or", A, ["and", ["not", ["paren", x]], ["cmp", "==", ["sq", QB], ["lit", 1]]]],
     "nested-filter-deep": lambda x: ["and", A, ["test", ["q", "$", [["desc", [["filter", ["or", x, A]]]]]]]],
+    "filter-inside-a-function-argument": lambda x: ["cmp", ">", ["call", "count", [["nodes", ["q", "@", [["child", [["name", "a"]]], ["child", [["filter", x]]]]]]]], ["lit", 0]],
+    "filter-inside-a-nested-function-argument": lambda x: ["cmp", "==", ["call", "length", [["call", "value", [["nodes", ["q", "@", [["child", [["filter", ["and", A, x]]]]]]]]]]], ["lit", 1]],
 }
 
 
@@ -125,8 +127,22 @@ class _Spy(dict):
         return dict.values(self)
 
 
+SENTINELS = [("$[?true]", False, "uncompared-literal"), ("$[?1]", False, "uncompared-literal"), ("$[?'x']", False, "uncompared-literal"), ("$[?null]", False, "uncompared-literal"), ("$[?(1)]", False, "uncompared-literal"),
+             ("$[?count(@.a[?true]) > 0]", False, "uncompared-literal"), ("$[?@.a && 1]", False, "uncompared-literal"), ("$[?length(@.a)]", False, "value-function-as-test"), ("$[?@.* == 1]", False, "non-singular-operand"),
+             ("$[?nope(@.a)]", False, "unknown-function"), ("$[01]", False, "index-leading-zero"), ("$[]", False, "empty-bracket-list"), ("$[?@.a]", True, "well-formed"), ("$[?count(@.*) == 1]", True, "well-formed"),
+             ("$[?match(@.a, 'x') || @.b == true]", True, "well-formed"), ("$[?count(@.a[?@.b == true]) > 0]", True, "well-formed")]
+_CALLS = [0]
+
+
 def compile_case(ctx, env, text, expect_ok, cls, label, ast=None):
     """One compile; verdict against the expectation; evaluate counter must not move."""
+    _CALLS[0] += 1
+    if _CALLS[0] % 40 == 0 and not cls.startswith("sentinel") and getattr(env, "well_typed", True):
+        # the same environment a moment later: whatever the earlier (mostly refused) queries left behind, a fixed set of
+        # queries must still get the verdicts they always get
+        for t_, ok_, lab_ in SENTINELS:
+            compile_case(ctx, env, t_, ok_, "sentinel-after-refusals", lab_)
+        ctx.count("sentinel_rounds")
     ctx.evaluation()
     ctx.case(h(text, cls.split(":")[0] == "narrow"))
     before = hooks.STATE.evaluate_calls
